@@ -155,11 +155,11 @@ ADDED = {
   'C05': 'channel-endpoint clause, min=max aperture, Close raising during a leave, named endpoints, first load failing (Exception / BaseException), Open() again, empty server set at open',
   'C06': 'second balancer in the process, sub-millisecond traffic, wall-clock steps, crash-then-leave (steps and settling), stock settings after a prior builder, every active member down (also while a replacement opens)',
   'C07': 're-entrant consumer, warm-up connection still opening, stock settings after a prior pool, bursts of up to 1200 (5000) queued requests answered synchronously, settings given through Clone()',
-  'C08': 'bystander transport, re-entrant consumers, expired deadlines, connect timeout without errno, 5-byte reads (EOF inside a frame), open-and-idle-must-carry clause',
+  'C08': 'bystander transport, re-entrant consumers, expired deadlines, connect timeout without errno, 5-byte reads (EOF inside a frame), open-and-idle-must-carry clause, unanswered Tping = connection failure after the 5 s ping timeout',
   'C09': 'double outages, two members, hour-long outages, hanging connects with a second pooled connection, close at the first error, prior client, ping-then-hang-up after k callbacks, stale-fault rule and fail-fast-while-up clause, three members closed after minutes',
   'C10': 'far deadlines, overdue sets, 7 pending actions, on-tick and just-past-tick deadlines at 1 s, callables without __name__, up to 300 (3000) blocking actions, clock jumps past several deadlines',
   'C11': 'Kafka transport, back-pressure scripts, replies for tags of queued requests, Rerr / BAD_Rerr, acknowledged discards, Open() again, 4-byte reads, tag counter jumps beyond 16 bits',
-  'C12': 'discard-after-write ordering, transport-level parts (also behind a singleton pool), balancer-open hop on the balancer harness, tags above 16 bits, a 70 KB request',
+  'C12': 'discard-after-write ordering, transport-level parts (also behind a singleton pool), balancer-open hop on the balancer harness, tags above 16 bits, a 70 KB request, deadline firing while the periodic Tping is unanswered',
   'C13': 'interleaved writers under 31 s back-pressure, two service families, non-text property values, a message dispatched repeatedly, DEBUG logging, 3-byte reads / 7-byte sends, frame-boundary and ping-count clauses under back-pressure',
   'C14': 'history-dependent call sequences, two service families, keyword calls, percent signs in exception texts, pooled timeout-then-call, write splits, an interface three levels deep',
   'C15': 'client id overrides, requests while connecting, call forms, batched replies, small I/O, the complete client x every produce error code, Kafka transport under deadline schedules',
